@@ -21,6 +21,11 @@ import CookModel.Lemmas.DiagEmptyValueMore
 import CookModel.Lemmas.DiagSoundConv
 import CookModel.Lemmas.TableFacts
 import CookModel.Lemmas.FrontMatterStd
+import CookModel.Lemmas.DiagPlaceInst
+import CookModel.Lemmas.DiagPlaceReport
+import CookModel.Lemmas.DiagSoundUsesNone2
+import CookModel.Lemmas.DiagNoticeSpans
+import CookModel.Lemmas.DiagEventExact2
 /-
   C07  Diagnostics are sound, complete and placed on the offending construct.
 
@@ -2204,5 +2209,791 @@ example : (FM.processFrontmatter (C07_exFm Rat) (Text.fromStr "time: 60\nprep ti
     [⟨.warning, .analysis, "time-overridden-fm", [⟨13, 13⟩, ⟨4, 4⟩]⟩] := by decide
 example : FM.keptBy (fun n _ _ => ⟨.ok, n != 0, true⟩) 0 [(SM.Y.null, SM.Y.null), (SM.Y.bool, SM.Y.null)] =
     [(SM.Y.bool, SM.Y.null)] := rfl
+/-! ### Arbitrary placement: a catalogued construct ANYWHERE inside a step (wave 5)
+
+  The `while` of `parse_step` works piece by piece.  A PIECE (`PlPiece`) is a run of tokens together with a
+  description of events; `PlPieceAt T cs e A p` says: from EVERY parser state on the tokens `T` (character
+  tables `cs`, extensions `e`, no panic so far, ANY event queue) whose cursor stands right after `A`, one
+  iteration consumes exactly the tokens of `p`, appends events as `p` describes and changes nothing else.
+  `Lemmas/DiagPlace*.lean`. -/
+
+/-- **The events of a step are the concatenation of the events of its pieces.**  If the tokens of a step
+    block are cut into pieces, each of which is what one iteration of the step loop consumes at its
+    position (`PlPiecesAt`), then `parse_step` delivers `Start(Step)`, then for each piece in order a list
+    of events as that piece describes (`PlEvs`), then `End(Step)` — nothing else; all tokens are consumed and
+    no panic site is reached.  In particular the DIAGNOSTICS of the step are the concatenation of the
+    per-piece diagnostics. -/
+theorem C07_step_events_concat (ps : List (PlPiece α)) (s : BP α) (ht : s.toks = ps.flatMap (·.toks))
+    (hc : s.cur = 0) (hp : s.panic = none) (hps : PlPiecesAt s.toks s.cs s.ext [] ps) :
+    ∃ (evss : List (List (Ev α))) (arr : Array (Ev α)),
+      parseStep s = ((), { s with cur := s.toks.length, evs := arr }) ∧
+      arr.toList = s.evs.toList ++ [.start .step] ++ evss.flatten ++ [.stop .step] ∧ PlEvs ps evss :=
+  c07p_parseStep_pieces ps s ht hc hp hps
+
+/-- **Every well-spelled segment of C01's `step_compose` is a piece that emits no diagnostic.**  A segment
+    `seg` (text run, ingredient / cookware in braces or single-word form, timer, intermediate reference)
+    that is well-formed on its own (`SegX.ok`), spelled by the tokens `tseg` standing after `A` and followed
+    by tokens `rest` as its form requires (`SegX.followT`: a marker or the end after a text run, no `(` after
+    a component without note, …), is a piece whose events are exactly ONE event, the text / component the
+    segment denotes (`SegXEv`: never an error or warning) — whatever `A` and `rest` are otherwise (in
+    particular: invalid constructs). -/
+theorem C07_segment_is_piece (seg : SegX) (cs : CharSpec) (e : Ext) (T A tseg rest : List Tok)
+    (hT : T = A ++ (tseg ++ rest)) (hs : Spells tseg seg.spell) (hok : seg.ok cs e = true)
+    (hf : seg.followT rest = true) (hrun : RunAt (baseOff T) T) :
+    PlPieceAt (α := α) T cs e A (seg.piece cs tseg) :=
+  c07p_seg_pieceAt seg cs e T A tseg rest hT hs hok hf hrun
+
+/-- **The placement schema: a construct planted anywhere in a step.**  The step block consists of
+    well-spelled segments `pre` (actual tokens `tpre`), then the tokens `B` of a construct, then well-spelled
+    segments `post` (`tpost`); the segments are well-formed and followed as their forms require, the
+    construct's tokens counting as what follows `pre` (`segsFollowT`; for `post` this is implied by C01's
+    `segsXOK`, second part); and at its position the construct is a piece with events described by `specB`.
+    Then `parse_step` delivers exactly: `Start(Step)`; ONE text/component event per segment of `pre`, in
+    order (`SegsXEvs`: no diagnostic); the events of the construct (`specB`); ONE text/component event per
+    segment of `post`; `End(Step)`.  So the construct emits its documented diagnostics WHEREVER it stands,
+    and the other segments emit nothing. -/
+theorem C07_planted_step (pre post : List SegX) (B : List Tok) (specB : List (Ev α) → Prop) (s : BP α)
+    (tpre tpost : List Tok) (hspre : Spells tpre (pre.flatMap SegX.spell))
+    (hspost : Spells tpost (post.flatMap SegX.spell))
+    (ht : s.toks = tpre ++ (B ++ tpost)) (hc : s.cur = 0) (hp : s.panic = none)
+    (hrun : RunAt (baseOff s.toks) s.toks)
+    (hpre : segsFollowT s.cs s.ext pre (B ++ post.flatMap SegX.spell) = true)
+    (hpost : segsFollowT s.cs s.ext post [] = true)
+    (hB : PlPieceAt s.toks s.cs s.ext tpre ⟨B, specB⟩) :
+    (∃ (evs1 evsB evs2 : List (Ev α)) (arr : Array (Ev α)),
+      parseStep s = ((), { s with cur := s.toks.length, evs := arr }) ∧
+      arr.toList = s.evs.toList ++ [.start .step] ++ evs1 ++ evsB ++ evs2 ++ [.stop .step] ∧
+      SegsXEvs s.cs pre evs1 ∧ specB evsB ∧ SegsXEvs s.cs post evs2) ∧
+    (∀ segs : List SegX, segsXOK s.cs s.ext segs = true → segsFollowT s.cs s.ext segs [] = true) :=
+  ⟨c07p_planted_step pre post B specB s tpre tpost hspre hspost ht hc hp hrun hpre hpost hB,
+   c07p_segsFollowT_of_segsXOK s.cs s.ext⟩
+
+/-- **Instances of the schema: five catalogued constructs are pieces wherever they stand.**  The construct is
+    written `marker mods name { Q }` (`c07p_comp`), its token kinds make it a braces component under the
+    extension set `e` and what follows is not a `(` (`PlShape`); `T = A ++ (construct ++ rest)` is a block
+    (`WF`: non-empty, adjacent tokens).  Then, from every parser state at that position, one iteration of the
+    step loop consumes exactly the construct and pushes EXACTLY the listed events — the documented
+    diagnostic(s), then the component event, whose span is the byte range of the construct
+    (`offAt T |A|` … `offAt T (|A| + length)`), so every label below lies inside the construct:
+    1. **value error** `@x{1/0}`, `@x{4294967296/2}`: the number reader returns the error `d` on the value
+       tokens ⇒ `d` (for `1/0`: `division-by-zero` labelled from the numerator to the denominator,
+       `C07_zero_denominator`), then the ingredient;
+    2. **unit on cookware** `#pot{1%kg}` ⇒ `cookware-unit` labelled from the `%` to the end of the unit;
+    3. **timer without unit** `~x{5}`, `~{5}` ⇒ `timer-missing-unit` labelled with the position right after the
+       value of the timer's quantity;
+    4. **duplicate modifier** `@&&x{}` ⇒ one `duplicate-modifier` per repeated modifier token, labelled with
+       the span of the modifier tokens (none iff the kinds are pairwise different, `C07_duplicate_modifier`);
+    5. **empty name** `@{}`, `@ {}` ⇒ `empty-name:ingredient` labelled with the span of the blank name text.
+    Each is then placed anywhere among well-spelled segments by `C07_planted_step`. -/
+theorem C07_planted_constructs (T A rest : List Tok) (cs : CharSpec) (e : Ext) (hw : WF T) (tm : Tok)
+    (nameT : List Tok) (tob tcb : Tok) :
+    (∀ (t0 : Tok) (tl : List Tok) (d : Diag),
+      T = A ++ (c07p_comp tm [] nameT tob (t0 :: tl) tcb ++ rest) →
+      PlShape e .at tm [] nameT tob (t0 :: tl) tcb rest →
+      (e.has Gen.EXT_COMPONENT_ALIAS = false ∨ ∀ t ∈ nameT, t.kind ≠ .or) →
+      (buildText (offAt T (A.length + 1)) nameT).isTextEmpty cs = false →
+      isWsComment t0.kind = false → t0.kind ≠ .eq →
+      (∀ t ∈ t0 :: tl, t.kind ≠ .percent ∧ t.kind ≠ .word ∧ t.kind ≠ .ws) →
+      numOrRange (α := α) (e.has Gen.EXT_RANGE_VALUES) (t0 :: tl) = some (.error d) →
+      PlPieceAt T cs e A ⟨c07p_comp tm [] nameT tob (t0 :: tl) tcb, fun evs => ∃ q : Loc (PQuantity α),
+        evs = [.error d, .ingredient ⟨⟨⟨Modifiers.empty, Span.pos (offAt T (A.length + 1))⟩, none,
+          buildText (offAt T (A.length + 1)) nameT, none, some q, none⟩,
+          ⟨offAt T A.length, offAt T (A.length + (c07p_comp tm [] nameT tob (t0 :: tl) tcb).length)⟩⟩] ∧
+        q.val.unit = none⟩) ∧
+    (∀ (vt ut : List Tok) (pct t0 : Tok),
+      T = A ++ (c07p_comp tm [] nameT tob (vt ++ pct :: ut) tcb ++ rest) →
+      PlShape e .hash tm [] nameT tob (vt ++ pct :: ut) tcb rest →
+      (e.has Gen.EXT_COMPONENT_ALIAS = false ∨ ∀ t ∈ nameT, t.kind ≠ .or) →
+      (buildText (offAt T (A.length + 1)) nameT).isTextEmpty cs = false →
+      vt.head? = some t0 → isWsComment t0.kind = false → t0.kind ≠ .eq →
+      (∀ t ∈ vt, t.kind ≠ .percent) → pct.kind = .percent →
+      ((∃ v, numOrRange (α := α) (e.has Gen.EXT_RANGE_VALUES) vt = some (.ok v)) ∨
+        (numOrRange (α := α) (e.has Gen.EXT_RANGE_VALUES) vt = none ∧
+          (buildText t0.start vt).isTextEmpty cs = false)) →
+      (buildText pct.stop ut).isTextEmpty cs = false →
+      PlPieceAt T cs e A ⟨c07p_comp tm [] nameT tob (vt ++ pct :: ut) tcb, fun evs => ∃ qv : Loc (PQValue α),
+        evs = [.error ⟨.error, .parse, "cookware-unit", [⟨pct.start, (buildText pct.stop ut).span.stop⟩]⟩,
+          .cookware ⟨⟨⟨Modifiers.empty, Span.pos (offAt T (A.length + 1))⟩,
+            buildText (offAt T (A.length + 1)) nameT, none, some qv, none⟩,
+          ⟨offAt T A.length, offAt T (A.length + (c07p_comp tm [] nameT tob (vt ++ pct :: ut) tcb).length)⟩⟩]⟩) ∧
+    (∀ (t0 : Tok) (tl : List Tok),
+      T = A ++ (c07p_comp tm [] nameT tob (t0 :: tl) tcb ++ rest) →
+      PlShape e .tilde tm [] nameT tob (t0 :: tl) tcb rest →
+      (e.has Gen.EXT_COMPONENT_ALIAS = false ∨ ∀ t ∈ nameT, t.kind ≠ .or) →
+      isWsComment t0.kind = false → t0.kind ≠ .eq →
+      (∀ t ∈ t0 :: tl, t.kind ≠ .percent ∧ t.kind ≠ .word ∧ t.kind ≠ .ws) →
+      (∃ v, numOrRange (α := α) (e.has Gen.EXT_RANGE_VALUES) (t0 :: tl) = some (.ok v)) →
+      PlPieceAt T cs e A ⟨c07p_comp tm [] nameT tob (t0 :: tl) tcb, fun evs => ∃ q : Loc (PQuantity α),
+        evs = [.error ⟨.error, .parse, "timer-missing-unit", [Span.pos q.val.value.value.span.stop]⟩,
+          .timer ⟨⟨if (buildText (offAt T (A.length + 1)) nameT).isTextEmpty cs then none
+              else some (buildText (offAt T (A.length + 1)) nameT), some q⟩,
+            ⟨offAt T A.length, offAt T (A.length + (c07p_comp tm [] nameT tob (t0 :: tl) tcb).length)⟩⟩] ∧
+        q.val.unit = none⟩) ∧
+    (∀ (ms Q : List Tok),
+      T = A ++ (c07p_comp tm ms nameT tob Q tcb ++ rest) →
+      PlShape e .at tm ms nameT tob Q tcb rest → SimpleMods ms → (∀ t ∈ Q, isPadK t = true) →
+      (e.has Gen.EXT_COMPONENT_ALIAS = false ∨ ∀ t ∈ nameT, t.kind ≠ .or) →
+      (buildText (offAt T (A.length + 1 + ms.length)) nameT).isTextEmpty cs = false →
+      PlPieceAt (α := α) T cs e A ⟨c07p_comp tm ms nameT tob Q tcb, fun evs =>
+        evs = List.replicate (foldMods Modifiers.empty ms).2
+            (.error ⟨.error, .parse, "duplicate-modifier", [tokensSpan ms]⟩) ++
+          [.ingredient ⟨⟨simpleFlags ms (offAt T (A.length + 1)), none,
+            buildText (offAt T (A.length + 1 + ms.length)) nameT, none, none, none⟩,
+          ⟨offAt T A.length, offAt T (A.length + (c07p_comp tm ms nameT tob Q tcb).length)⟩⟩]⟩) ∧
+    (∀ (Q : List Tok),
+      T = A ++ (c07p_comp tm [] nameT tob Q tcb ++ rest) →
+      PlShape e .at tm [] nameT tob Q tcb rest → (∀ t ∈ Q, isPadK t = true) →
+      (e.has Gen.EXT_COMPONENT_ALIAS = false ∨ ∀ t ∈ nameT, t.kind ≠ .or) →
+      (buildText (offAt T (A.length + 1)) nameT).isTextEmpty cs = true →
+      PlPieceAt (α := α) T cs e A ⟨c07p_comp tm [] nameT tob Q tcb, fun evs =>
+        evs = [.error ⟨.error, .parse, "empty-name:ingredient",
+            [(buildText (offAt T (A.length + 1)) nameT).span]⟩,
+          .ingredient ⟨⟨⟨Modifiers.empty, Span.pos (offAt T (A.length + 1))⟩, none,
+            buildText (offAt T (A.length + 1)) nameT, none, none, none⟩,
+          ⟨offAt T A.length, offAt T (A.length + (c07p_comp tm [] nameT tob Q tcb).length)⟩⟩]⟩) :=
+  ⟨fun t0 tl d hT sh ha hn hws heq hk hv =>
+     c07p_value_error_piece T A rest cs e tm nameT tob t0 tl tcb d hT hw sh ha hn hws heq hk hv,
+   fun vt ut pct t0 hT sh ha hn h0 hws heq hvp hp hv hu =>
+     c07p_cookware_unit_piece T A rest cs e tm nameT tob vt ut pct t0 tcb hT hw sh ha hn h0 hws heq hvp hp hv hu,
+   fun t0 tl hT sh ha hws heq hk hv =>
+     c07p_timer_missing_unit_piece T A rest cs e tm nameT tob t0 tl tcb hT hw sh ha hws heq hk hv,
+   fun ms Q hT sh hs hQ ha hn =>
+     c07p_duplicate_modifier_piece T A rest cs e tm ms nameT tob Q tcb hT hw sh hs hQ ha hn,
+   fun Q hT sh hQ ha hn => c07p_empty_name_piece T A rest cs e tm nameT tob Q tcb hT hw sh hQ ha hn⟩
+
+/-- **Zero denominator anywhere in a step, fully composed** (schema + instance 1 + `C07_zero_denominator`).
+    A step block: well-spelled segments `pre`, the ingredient `@name{a/b}` (`b` spells zero, `a` fits `u32`;
+    no modifiers, no alias separator, a non-blank name), well-spelled segments `post`, with the side
+    conditions of the schema.  Then `parse_step` delivers `Start(Step)`, one text/component event per segment
+    of `pre`, the error `division-by-zero` (error, parse) labelled EXACTLY from the start of `a` to the end of
+    `b` — inside the construct —, the ingredient, one text/component event per segment of `post`,
+    `End(Step)`: the diagnostic is emitted wherever the construct stands and nothing else is. -/
+theorem C07_planted_zero_denominator (pre post : List SegX) (s : BP α) (tpre tpost : List Tok) (tm : Tok)
+    (nameT : List Tok) (tob a sl b tcb : Tok)
+    (hspre : Spells tpre (pre.flatMap SegX.spell)) (hspost : Spells tpost (post.flatMap SegX.spell))
+    (ht : s.toks = tpre ++ (c07p_comp tm [] nameT tob [a, sl, b] tcb ++ tpost)) (hc : s.cur = 0)
+    (hp : s.panic = none) (hw : WF s.toks)
+    (hpre : segsFollowT s.cs s.ext pre (c07p_comp tm [] nameT tob [a, sl, b] tcb ++ post.flatMap SegX.spell) = true)
+    (hpost : segsFollowT s.cs s.ext post [] = true)
+    (sh : PlShape s.ext .at tm [] nameT tob [a, sl, b] tcb tpost)
+    (halias : s.ext.has Gen.EXT_COMPONENT_ALIAS = false ∨ ∀ t ∈ nameT, t.kind ≠ .or)
+    (hname : (buildText (offAt s.toks (tpre.length + 1)) nameT).isTextEmpty s.cs = false)
+    (ha : a.kind = .int) (hsl : sl.kind = .slash) (hb : b.kind = .int)
+    (hau : digitsToNat a.text ≤ u32Max) (hb0 : digitsToNat b.text = 0) :
+    ∃ (evs1 evs2 : List (Ev α)) (q : Loc (PQuantity α)) (arr : Array (Ev α)),
+      parseStep s = ((), { s with cur := s.toks.length, evs := arr }) ∧
+      arr.toList = s.evs.toList ++ [.start .step] ++ evs1 ++
+        [.error ⟨.error, .parse, "division-by-zero", [⟨a.start, b.stop⟩]⟩,
+         .ingredient ⟨⟨⟨Modifiers.empty, Span.pos (offAt s.toks (tpre.length + 1))⟩, none,
+           buildText (offAt s.toks (tpre.length + 1)) nameT, none, some q, none⟩,
+           ⟨offAt s.toks tpre.length,
+            offAt s.toks (tpre.length + (c07p_comp tm [] nameT tob [a, sl, b] tcb).length)⟩⟩] ++
+        evs2 ++ [.stop .step] ∧
+      SegsXEvs s.cs pre evs1 ∧ SegsXEvs s.cs post evs2 := by
+  have hz := (C07_zero_denominator (α := α) a sl b ha hsl hb hau hb0 [] [a, sl, b] [] (by simp) (by simp) rfl rfl
+    (by simp [notWsComment, isWsComment, ha, hsl, hb]) (s.ext.has Gen.EXT_RANGE_VALUES)
+    (Or.inr (by intro t ht'; simp at ht'; rcases ht' with rfl | rfl | rfl <;> simp [ha, hsl, hb]))).2.2
+  simp only [List.nil_append, List.append_nil] at hz
+  have hB := c07p_value_error_piece (α := α) s.toks tpre tpost s.cs s.ext tm nameT tob a [sl, b] tcb _ ht hw sh halias hname
+    (by simp [isWsComment, ha]) (by simp [ha])
+    (by intro t ht'; simp at ht'; rcases ht' with rfl | rfl | rfl <;> simp [ha, hsl, hb]) hz
+  obtain ⟨evs1, evsB, evs2, arr, h1, h2, h3, ⟨q, hq, -⟩, h5⟩ :=
+    c07p_planted_step pre post _ _ s tpre tpost hspre hspost ht hc hp hw.run hpre hpost hB
+  subst hq
+  exact ⟨evs1, evs2, q, arr, h1, h2, h3, h5⟩
+
+/-- **From the events to the report.**  A parse-stage error EVENT anywhere in the event stream of an input
+    (e.g. the diagnostic of a planted construct, by the theorems above) is in the report of `parse_events`,
+    and the result has no output (`C07_parse_error_suppresses`). -/
+theorem C07_planted_error_reported (env : Env) (input : Str) (evs : List (Ev α)) (s : Col α) (d : Diag)
+    (h : Ev.error d ∈ evs) (hst : d.stage = .parse) :
+    d ∈ (parseEventsLoop env input evs s).diags.toList ∧ (parseEventsLoop env input evs s).output = none :=
+  c07p_error_event_reported env input evs s d h hst
+
+/-! non-vacuity of the placement theorems: the step `Mix @x{1/0} now` (every extension off) -/
+def C07_plToks : List Tok :=
+  [⟨.word, "Mix".toList, 0⟩, ⟨.ws, [' '], 3⟩, ⟨.at, ['@'], 4⟩, ⟨.word, ['x'], 5⟩, ⟨.openBrace, ['{'], 6⟩,
+   ⟨.int, ['1'], 7⟩, ⟨.slash, ['/'], 8⟩, ⟨.int, ['0'], 9⟩, ⟨.closeBrace, ['}'], 10⟩, ⟨.ws, [' '], 11⟩,
+   ⟨.word, "now".toList, 12⟩]
+def C07_plState : BP Rat := ⟨C07_plToks, 0, ⟨0⟩, toyCharSpec, #[], none⟩
+def C07_plPre : List SegX := [.text [tk .word "Mix".toList, tk .ws [' ']]]
+def C07_plPost : List SegX := [.text [tk .ws [' '], tk .word "now".toList]]
+theorem C07_plWF : WF C07_plToks :=
+  WF.of_chain (off := 0) (by simp [C07_plToks, Chain, Tok.stop, utf8Len]; decide)
+    (by intro t ht; simp [C07_plToks] at ht; rcases ht with rfl | rfl | rfl | rfl | rfl | rfl | rfl | rfl | rfl | rfl | rfl <;> simp)
+    (by simp [C07_plToks])
+theorem C07_plShape : PlShape C07_plState.ext .at ⟨.at, ['@'], 4⟩ [] [⟨.word, ['x'], 5⟩] ⟨.openBrace, ['{'], 6⟩
+    [⟨.int, ['1'], 7⟩, ⟨.slash, ['/'], 8⟩, ⟨.int, ['0'], 9⟩] ⟨.closeBrace, ['}'], 10⟩
+    [⟨.ws, [' '], 11⟩, ⟨.word, "now".toList, 12⟩] :=
+  ⟨rfl, Or.inl ⟨rfl, rfl⟩, by decide, rfl, by decide, rfl, by intro t h; cases h; decide⟩
+example : ∃ (evs1 evs2 : List (Ev Rat)) (q : Loc (PQuantity Rat)) (arr : Array (Ev Rat)),
+    parseStep C07_plState = ((), { C07_plState with cur := 11, evs := arr }) ∧
+    arr.toList = [.start .step] ++ evs1 ++
+      [.error ⟨.error, .parse, "division-by-zero", [⟨7, 10⟩]⟩,
+       .ingredient ⟨⟨⟨Modifiers.empty, Span.pos 5⟩, none, buildText 5 [⟨.word, ['x'], 5⟩], none, some q, none⟩,
+         ⟨4, 11⟩⟩] ++ evs2 ++ [.stop .step] ∧
+    SegsXEvs toyCharSpec C07_plPre evs1 ∧ SegsXEvs toyCharSpec C07_plPost evs2 :=
+  C07_planted_zero_denominator C07_plPre C07_plPost C07_plState
+    [⟨.word, "Mix".toList, 0⟩, ⟨.ws, [' '], 3⟩] [⟨.ws, [' '], 11⟩, ⟨.word, "now".toList, 12⟩]
+    ⟨.at, ['@'], 4⟩ [⟨.word, ['x'], 5⟩] ⟨.openBrace, ['{'], 6⟩ ⟨.int, ['1'], 7⟩ ⟨.slash, ['/'], 8⟩ ⟨.int, ['0'], 9⟩
+    ⟨.closeBrace, ['}'], 10⟩ (by decide) (by decide) rfl rfl rfl C07_plWF (by decide) (by decide) C07_plShape
+    (Or.inl rfl) (by decide) rfl rfl rfl (by decide) (by decide)
+/-! the error event reaches the report, wherever it stands among the events, and there is no output -/
+example : (⟨.error, .parse, "division-by-zero", [⟨7, 10⟩]⟩ : Diag) ∈
+      (parseEventsLoop (α := Rat) C07_coreEnv [] [.start .step, .text (buildText 0 [⟨.word, "Mix".toList, 0⟩]),
+        .error ⟨.error, .parse, "division-by-zero", [⟨7, 10⟩]⟩, .stop .step] {}).diags.toList ∧
+    (parseEventsLoop (α := Rat) C07_coreEnv [] [.start .step, .text (buildText 0 [⟨.word, "Mix".toList, 0⟩]),
+        .error ⟨.error, .parse, "division-by-zero", [⟨7, 10⟩]⟩, .stop .step] {}).output = none :=
+  C07_planted_error_reported C07_coreEnv [] _ {} _ (by simp) rfl
+
+/-! the other four constructs, each after the text `Use ` and before `.`:
+    `Use #pot{1%kg}.`, `Use ~{5}.`, `Use @&&x{}.` (COMPONENT_MODIFIERS), `Use @{}.` — shapes and side conditions -/
+def C07_plUse : List Tok := [⟨.word, "Use".toList, 0⟩, ⟨.ws, [' '], 3⟩]
+example : PlShape ⟨0⟩ .hash ⟨.hash, ['#'], 4⟩ [] [⟨.word, "pot".toList, 5⟩] ⟨.openBrace, ['{'], 8⟩
+    ([⟨.int, ['1'], 9⟩] ++ ⟨.percent, ['%'], 10⟩ :: [⟨.word, "kg".toList, 11⟩]) ⟨.closeBrace, ['}'], 13⟩
+    [⟨.dot, ['.'], 14⟩] :=
+  ⟨rfl, Or.inl ⟨rfl, rfl⟩, by decide, rfl, by decide, rfl, by intro t h; cases h; decide⟩
+example : (∃ v, numOrRange (α := Rat) ((⟨0⟩ : Ext).has Gen.EXT_RANGE_VALUES) [⟨.int, ['1'], 9⟩] = some (.ok v)) ∧
+    (buildText 11 [⟨.word, "kg".toList, 11⟩]).isTextEmpty toyCharSpec = false ∧
+    (buildText (offAt (C07_plUse ++ [⟨.hash, ['#'], 4⟩, ⟨.word, "pot".toList, 5⟩]) (C07_plUse.length + 1))
+      [⟨.word, "pot".toList, 5⟩]).isTextEmpty toyCharSpec = false := ⟨⟨_, rfl⟩, by decide, by decide⟩
+example : PlShape ⟨0⟩ .tilde ⟨.tilde, ['~'], 4⟩ [] [] ⟨.openBrace, ['{'], 5⟩ [⟨.int, ['5'], 6⟩]
+    ⟨.closeBrace, ['}'], 7⟩ [⟨.dot, ['.'], 8⟩] :=
+  ⟨rfl, Or.inl ⟨rfl, rfl⟩, by decide, rfl, by decide, rfl, by intro t h; cases h; decide⟩
+example : ∃ v, numOrRange (α := Rat) ((⟨0⟩ : Ext).has Gen.EXT_RANGE_VALUES) [⟨.int, ['5'], 6⟩] = some (.ok v) := ⟨_, rfl⟩
+example : PlShape ⟨Gen.EXT_COMPONENT_MODIFIERS⟩ .at ⟨.at, ['@'], 4⟩ [⟨.and, ['&'], 5⟩, ⟨.and, ['&'], 6⟩]
+    [⟨.word, ['x'], 7⟩] ⟨.openBrace, ['{'], 8⟩ [] ⟨.closeBrace, ['}'], 9⟩ [⟨.dot, ['.'], 10⟩] :=
+  ⟨rfl, Or.inr ⟨rfl, by decide, by intro x h; cases h; decide⟩, by decide, rfl, by decide, rfl,
+    by intro t h; cases h; decide⟩
+example : SimpleMods [⟨.and, ['&'], 5⟩, ⟨.and, ['&'], 6⟩] ∧
+    (foldMods Modifiers.empty [⟨.and, ['&'], 5⟩, ⟨.and, ['&'], 6⟩]).2 = 1 := ⟨by unfold SimpleMods; decide, rfl⟩
+example : PlShape ⟨0⟩ .at ⟨.at, ['@'], 4⟩ [] [] ⟨.openBrace, ['{'], 5⟩ [] ⟨.closeBrace, ['}'], 6⟩ [⟨.dot, ['.'], 7⟩] :=
+  ⟨rfl, Or.inl ⟨rfl, rfl⟩, by decide, rfl, by decide, rfl, by intro t h; cases h; decide⟩
+example : (buildText 5 []).isTextEmpty toyCharSpec = true := rfl
+
+/-! ### Soundness under every extension set: C02's `UsesNone` premise from the abstract document (wave 5) -/
+
+/-- **The syntactic premise of C02, from the abstract document (token form).**  For a well-formed document of
+    steps (the hypotheses of `C07_sound_recipe_steps`, extension flags arbitrary), if for every step the list of
+    SPEC tokens it is printed from (`d.1.flatMap SegX.spell`: the abstract step, no lexing and no printing
+    involved) satisfies the decidable check `stepCore` — every marker token `@ # ~` in it starts a component
+    without modifier character, without `|` in the name, whose amount has no `-` and a shape the advanced-units
+    reader declines, and every timer has an amount — then every block of the token stream of the PRINTED TEXT
+    satisfies `UsesNone`: the premise `hu` of `C07_sound_recipe_steps_all_extensions` / `C02_parse_ext_irrelevant`
+    holds.  (`stepCore` reads token kinds only, so it has the same value on the lexer's tokens of a block and on
+    the spec tokens the block spells; a step block does not start with `>>`, which settles the `>>` clause of
+    `UsesNone`.) -/
+theorem C07_uses_none_from_document (env : Env) (pre : List Tok) (doc : List (List SegX × List Tok))
+    (hpre : blankLinesOK pre = true) (hok : ∀ d ∈ doc, (DocItem.step d.1).ok env.cs env.ext = true)
+    (hseps : sepsOK (doc.map (·.2)) = true)
+    (hw : WellSpelled env.cs (pre ++ docSpec (stepsDoc doc)))
+    (hfm : parseFrontmatter env.cs (render (pre ++ docSpec (stepsDoc doc))) = none)
+    (hc : ∀ d ∈ doc, stepCore (d.1.flatMap SegX.spell) = true) :
+    UsesNoneInput env.cs (render (pre ++ docSpec (stepsDoc doc))) = true :=
+  c07u_usesNoneInput_of_spec env.cs env.ext pre doc hpre hok hseps hw hfm hc
+
+/-- **… from a structural predicate on the segments.**  For a well-formed list of segments (`segsXOK`), if every
+    segment satisfies `SegX.coreSyntax` — a text run: nothing to ask; an ingredient / cookware item, with braces
+    or as a single word: no modifier, no alias, a name that does not start with a modifier character
+    (`@ & ? + -`) and has no `|`, no marker (`@ # ~`) inside the note, and the amount, if any, is not a range, has
+    no `-` in its unit and, when it has no unit, has a shape the advanced-units reader declines (`advNone` of the
+    amount's own tokens); a timer: the same for its name, and it HAS an amount; an intermediate reference
+    `@&(~1)x{}` is not core — then the spec tokens of the step satisfy `stepCore`.  Second and third part:
+    structural sufficient conditions for the unit-less clause — a text amount that starts with a word
+    (`{a pinch}`), a number with nothing between it and the `}` (`{2}`, `{=1/2}`). -/
+theorem C07_uses_none_from_segments (cs : CharSpec) (ext : Ext) (segs : List SegX)
+    (hok : segsXOK cs ext segs = true) (hc : ∀ sg ∈ segs, sg.coreSyntax = true) :
+    stepCore (segs.flatMap SegX.spell) = true ∧
+    (∀ (q : AQty) (p : QPad) (l : List Tok), q.ok cs = true → p.ok cs = true → q.unit = none → q.val = .text l →
+      l.head?.any (fun t => t.kind == .word) = true → q.coreSyntax p = true) ∧
+    (∀ (q : AQty) (p : QPad) (n : ANum), q.ok cs = true → p.ok cs = true → q.unit = none → q.val = .num n →
+      p.v.post = [] → q.coreSyntax p = true) := by
+  refine ⟨c07u_stepCore_of_segments cs ext segs hok hc, ?_, ?_⟩
+  · intro q p l hq hp hu hv hw
+    simp only [AQty.coreSyntax, hu, hv, AVal.isRange, Bool.not_false, Bool.true_and]
+    exact c07u_advNone_text_word q p hq hp hu l hv hw
+  · intro q p n hq hp hu hv hpost
+    simp only [AQty.coreSyntax, hu, hv, AVal.isRange, Bool.not_false, Bool.true_and]
+    exact c07u_advNone_num q p hq hp hu n hv hpost
+
+/-- **… under EVERY extension set, all hypotheses on the abstract document.**
+    `C07_sound_recipe_steps_all_extensions` with BOTH premises of C02 replaced by predicates on the segments of
+    the abstract document: `hu` (a check on the token stream of the printed text) by `SegX.coreSyntax`, `hconv` (a
+    check on the events of the printed text) by `SegX.convCore`.  For a well-formed document of steps (checked
+    against `env`, ADVANCED_UNITS and INLINE_QUANTITIES off) whose segments use none of the extension syntaxes
+    and whose text runs / timer amounts are as `SegX.convCore` says, `CooklangParser::parse` of the printed text
+    reports NO diagnostic, is valid and reaches no panic site under ALL raw extension patterns `e`. -/
+theorem C07_sound_recipe_steps_all_extensions_abs (env : Env) (hws : env.cs.uws ' ' = true)
+    (pre : List Tok) (doc : List (List SegX × List Tok))
+    (hadv : env.ext.has Gen.EXT_ADVANCED_UNITS = false) (hinl : env.ext.has Gen.EXT_INLINE_QUANTITIES = false)
+    (hpre : blankLinesOK pre = true) (hok : ∀ d ∈ doc, (DocItem.step d.1).ok env.cs env.ext = true)
+    (hsimple : ∀ d ∈ doc, d.1.all SegX.simple = true) (hseps : sepsOK (doc.map (·.2)) = true)
+    (hw : WellSpelled env.cs (pre ++ docSpec (stepsDoc doc)))
+    (hfm : parseFrontmatter env.cs (render (pre ++ docSpec (stepsDoc doc))) = none)
+    (hc : ∀ d ∈ doc, ∀ sg ∈ d.1, sg.coreSyntax = true)
+    (hx : ∀ d ∈ doc, ∀ sg ∈ d.1, sg.convCore α env) (e : Ext) :
+    (parseRecipe (α := α) { env with ext := e } (render (pre ++ docSpec (stepsDoc doc)))).diags = #[] ∧
+    (parseRecipe (α := α) { env with ext := e } (render (pre ++ docSpec (stepsDoc doc)))).isValid = true ∧
+    (parseRecipe (α := α) { env with ext := e } (render (pre ++ docSpec (stepsDoc doc)))).panic = none :=
+  C07_sound_recipe_steps_all_extensions_abs_partial env hws pre doc hadv hinl hpre hok hsimple hseps hw hfm
+    (c07u_usesNoneInput_of_segments env.cs env.ext pre doc hpre hok hseps hw hfm hc) hx e
+
+/-- the same with the more general token form of the syntactic premise (`stepCore` of the spec tokens of each
+    step, e.g. for a note that mentions `@` in a harmless way, which `SegX.coreSyntax` refuses) -/
+theorem C07_sound_recipe_steps_all_extensions_abs_tokens (env : Env) (hws : env.cs.uws ' ' = true)
+    (pre : List Tok) (doc : List (List SegX × List Tok))
+    (hadv : env.ext.has Gen.EXT_ADVANCED_UNITS = false) (hinl : env.ext.has Gen.EXT_INLINE_QUANTITIES = false)
+    (hpre : blankLinesOK pre = true) (hok : ∀ d ∈ doc, (DocItem.step d.1).ok env.cs env.ext = true)
+    (hsimple : ∀ d ∈ doc, d.1.all SegX.simple = true) (hseps : sepsOK (doc.map (·.2)) = true)
+    (hw : WellSpelled env.cs (pre ++ docSpec (stepsDoc doc)))
+    (hfm : parseFrontmatter env.cs (render (pre ++ docSpec (stepsDoc doc))) = none)
+    (hc : ∀ d ∈ doc, stepCore (d.1.flatMap SegX.spell) = true)
+    (hx : ∀ d ∈ doc, ∀ sg ∈ d.1, sg.convCore α env) (e : Ext) :
+    (parseRecipe (α := α) { env with ext := e } (render (pre ++ docSpec (stepsDoc doc)))).diags = #[] ∧
+    (parseRecipe (α := α) { env with ext := e } (render (pre ++ docSpec (stepsDoc doc)))).isValid = true ∧
+    (parseRecipe (α := α) { env with ext := e } (render (pre ++ docSpec (stepsDoc doc)))).panic = none :=
+  C07_sound_recipe_steps_all_extensions_abs_partial env hws pre doc hadv hinl hpre hok hsimple hseps hw hfm
+    (C07_uses_none_from_document env pre doc hpre hok hseps hw hfm hc) hx e
+
+/-! non-vacuity: the segments of `C07_coreDoc` (`Mix @salt{} for ~{10%min}.`) satisfy both forms of the
+    predicate; the whole theorem applies to it: no diagnostic under EVERY extension set -/
+example : ∀ d ∈ C07_coreDoc, ∀ sg ∈ d.1, sg.coreSyntax = true := by decide
+example : ∀ d ∈ C07_coreDoc, stepCore (d.1.flatMap SegX.spell) = true := by decide
+example (e : Ext) :
+    (parseRecipe (α := Rat) { C07_coreEnv with ext := e } "Mix @salt{} for ~{10%min}.\n".toList).diags = #[] := by
+  have hx : ∀ d ∈ C07_coreDoc, ∀ sg ∈ d.1, sg.convCore Rat C07_coreEnv := by
+    intro d hd sg hsg
+    simp only [C07_coreDoc, List.mem_cons, List.not_mem_nil, or_false] at hd
+    subst hd
+    simp only [List.mem_cons, List.not_mem_nil, or_false] at hsg
+    rcases hsg with rfl | rfl | rfl | rfl | rfl
+    · exact ⟨by decide, rts_no_digit_no_inline _ _ _ _ (by decide)⟩
+    · trivial
+    · exact ⟨by decide, rts_no_digit_no_inline _ _ _ _ (by decide)⟩
+    · intro q hq
+      cases hq
+      exact ⟨by decide, fun u hu => by cases hu; decide⟩
+    · exact ⟨by decide, rts_no_digit_no_inline _ _ _ _ (by decide)⟩
+  have h := (C07_sound_recipe_steps_all_extensions_abs (α := Rat) C07_coreEnv (by decide) [] C07_coreDoc (by decide)
+    (by decide) (by decide) (by decide) (by decide) (by decide) (by decide) (by decide) (by decide) hx e).1
+  have hr : render ([] ++ docSpec (stepsDoc C07_coreDoc)) = "Mix @salt{} for ~{10%min}.\n".toList := by decide
+  rw [hr] at h
+  exact h
+
+/-! more shapes that are core syntax: `Add @flour{2%cups}(sifted), @salt{a pinch}, @eggs{2} to #pot` — a unit, a
+    note, a unit-less text amount starting with a word, a unit-less number, the single-word form; and shapes that
+    are not: a modifier, `{2 cups}` (a unit for ADVANCED_UNITS), a timer without amount, a `-` in the unit -/
+def C07_coreSegs2 : List SegX :=
+  [.text [tk .word "Add".toList, tk .ws [' ']],
+   .ingredient { name := [tk .word "flour".toList],
+                 qty := some { val := .num (.int ['2']), unit := some [tk .word "cups".toList] },
+                 note := some [tk .word "sifted".toList] } {},
+   .text [tk .punct [','], tk .ws [' ']],
+   .ingredient { name := [tk .word "salt".toList],
+                 qty := some { val := .text [tk .word ['a'], tk .ws [' '], tk .word "pinch".toList] } } {},
+   .text [tk .punct [','], tk .ws [' ']],
+   .ingredient { name := [tk .word "eggs".toList], qty := some { val := .num (.int ['2']) } } {},
+   .text [tk .ws [' '], tk .word "to".toList, tk .ws [' ']],
+   .cookware1 { name := [tk .word "pot".toList] }]
+example : render (C07_coreSegs2.flatMap SegX.spell) =
+    "Add @flour{2%cups}(sifted), @salt{a pinch}, @eggs{2} to #pot".toList := by decide
+example : segsXOK toyCharSpec ⟨0⟩ C07_coreSegs2 = true ∧ (∀ sg ∈ C07_coreSegs2, sg.coreSyntax = true) := by decide
+def C07_twoCups : AQty := { val := .text [tk .int ['2'], tk .ws [' '], tk .word "cups".toList] }
+def C07_minIsh : AQty :=
+  { val := .num (.int ['5']), unit := some [tk .word "min".toList, tk .minus ['-'], tk .word "ish".toList] }
+example : (SegX.ingredient { mods := [.plus], name := [tk .word "salt".toList] } {}).coreSyntax = false ∧
+    (SegX.ingredient { name := [tk .word "salt".toList], qty := some C07_twoCups } {}).coreSyntax = false ∧
+    (SegX.timer C01_exTimerRest {}).coreSyntax = false ∧
+    (SegX.timer { qty := some C07_minIsh } {}).coreSyntax = false := by
+  decide
+
+/-! ### The `>>` deprecation notice: where its labels are (wave 5) -/
+
+/-- **The `>>` notice is placed on the offending lines** (completes `C07_sound_recipe_doc`, which only COUNTS
+    the labels).  Same hypotheses: a well-formed document of steps, section lines, plain `>>` lines and text
+    paragraphs, printed after the blank lines `pre`.  Then the diagnostics of `parse` are exactly: nothing when
+    the document has no `>>` line, otherwise the ONE warning `meta-deprecated` (analysis stage) whose labels
+    are `c07n_labels (byte length of pre) doc` — a list computed from the ABSTRACT document, one label per
+    `>>` line, in document order — and for EVERY `>>` line of the document, i.e. every way of writing
+    `doc = A ++ (>> p.a key p.b : p.c value p.d, sep) :: B`, the label whose index is the number of `>>` lines
+    in `A` is, in BYTE OFFSETS OF THE PRINTED TEXT,
+    * start = byte length of the text printed up to and including that line's `>>` token and the block
+      comments `[- … -]` that follow the `>>` immediately (none in the usual case);
+    * stop = byte length of the text printed up to the end of that line, without the block comments the line
+      ends with (none in the usual case);
+    so it begins at or after the end of the `>>` token, is not reversed, ends at or before the end of the line
+    (before the newline that separates it from what follows) and within the input: the label lies ON the line
+    of the offending entry.  When no block comment directly follows `>>` and none ends the line (padding is
+    whitespace or absent) the label is exactly the line without its `>>` token: from `offset of the line + 2`
+    to the end of the line, leading and trailing whitespace included.
+    (This is `⟨key.span().start(), value.span().end()⟩` of `RecipeCollector::metadata`: `Text::span` runs
+    from the first to the last text fragment, whitespace is part of a fragment, a block comment is not and
+    splits fragments — checked against the real parser on `>>[- c -] k [- m -] : [- n -] v [- d -]`, label
+    ` k [- m -] : [- n -] v `.) -/
+theorem C07_meta_deprecated_spans (env : Env) (pre : List Tok) (doc : List (DocItem × List Tok))
+    (hpre : blankLinesOK pre = true) (hok : ∀ d ∈ doc, d.1.ok env.cs env.ext = true)
+    (hsimple : ∀ d ∈ doc, d.1.simple = true) (hplain : ∀ d ∈ doc, d.1.plain env)
+    (hext : ∀ d ∈ doc, d.1.extOK α env)
+    (hseps : sepsOK (doc.map (·.2)) = true) (hw : WellSpelled env.cs (pre ++ docSpec doc))
+    (hfm : parseFrontmatter env.cs (render (pre ++ docSpec doc)) = none) :
+    (parseRecipe (α := α) env (render (pre ++ docSpec doc))).diags =
+      (if ((doc.map (·.1)).filter DocItem.isMeta).length = 0 then #[]
+       else #[⟨.warning, .analysis, "meta-deprecated", c07n_labels (utf8Len (render pre)) doc⟩]) ∧
+    (c07n_labels (utf8Len (render pre)) doc).length = ((doc.map (·.1)).filter DocItem.isMeta).length ∧
+    ∀ (A B : List (DocItem × List Tok)) (k v : List Tok) (p : MPad) (sep : List Tok),
+      doc = A ++ (DocItem.metaLine k v p, sep) :: B →
+      ∃ l : Span,
+        (c07n_labels (utf8Len (render pre)) doc)[((A.map (·.1)).filter DocItem.isMeta).length]? = some l ∧
+        l.start = utf8Len (render (pre ++ docSpec A ++ ([tk .metaStart ['>', '>']] ++ p.a.takeWhile c07n_isBC))) ∧
+        l.stop = utf8Len (render (pre ++ docSpec A ++ ([tk .metaStart ['>', '>']] ++ p.a ++ k ++ p.b ++
+          [tk .colon [':']] ++ p.c ++ v ++ c07n_dropTrailBC p.d))) ∧
+        utf8Len (render (pre ++ docSpec A)) + 2 ≤ l.start ∧ l.start ≤ l.stop ∧
+        l.stop ≤ utf8Len (render (pre ++ docSpec A ++ spellMeta k v p)) ∧
+        utf8Len (render (pre ++ docSpec A ++ spellMeta k v p)) ≤ utf8Len (render (pre ++ docSpec doc)) ∧
+        (p.a.head?.all (fun t => !c07n_isBC t) = true → p.d.getLast?.all (fun t => !c07n_isBC t) = true →
+          l = ⟨utf8Len (render (pre ++ docSpec A)) + 2, utf8Len (render (pre ++ docSpec A ++ spellMeta k v p))⟩) := by
+  have hl := c07n_labels_length doc (utf8Len (render pre))
+  refine ⟨?_, hl, ?_⟩
+  · rw [c07n_parseRecipe_doc (α := α) env pre doc hpre hok hsimple hplain hext hseps hw hfm, deprecation, ← hl]
+    cases c07n_labels (utf8Len (render pre)) doc <;> simp
+  · intro A B k v p sep hdoc
+    subst hdoc
+    exact c07n_labels_line pre A B k v p sep
+
+/-- **… and with references**: the same for every document accepted by `C07_sound_recipe_doc_refs`
+    (components may be correctly written references `@&name` / `#&name` / `@&(~1)name{}`). -/
+theorem C07_meta_deprecated_spans_refs (env : Env) (pre : List Tok) (doc : List (DocItem × List Tok))
+    (hpre : blankLinesOK pre = true) (hok : ∀ d ∈ doc, d.1.ok env.cs env.ext = true)
+    (hlock : ∀ d ∈ doc, d.1.lockOK = true) (hplain : ∀ d ∈ doc, d.1.plain env)
+    (hext : ∀ d ∈ doc, d.1.extOK α env)
+    (hrefs : xOK (α := α) env {} [] ⟨none, []⟩ 1 (doc.map (fun d => d.1.x)))
+    (hseps : sepsOK (doc.map (·.2)) = true) (hw : WellSpelled env.cs (pre ++ docSpec doc))
+    (hfm : parseFrontmatter env.cs (render (pre ++ docSpec doc)) = none) :
+    (parseRecipe (α := α) env (render (pre ++ docSpec doc))).diags =
+      (if ((doc.map (·.1)).filter DocItem.isMeta).length = 0 then #[]
+       else #[⟨.warning, .analysis, "meta-deprecated", c07n_labels (utf8Len (render pre)) doc⟩]) ∧
+    (c07n_labels (utf8Len (render pre)) doc).length = ((doc.map (·.1)).filter DocItem.isMeta).length ∧
+    ∀ (A B : List (DocItem × List Tok)) (k v : List Tok) (p : MPad) (sep : List Tok),
+      doc = A ++ (DocItem.metaLine k v p, sep) :: B →
+      ∃ l : Span,
+        (c07n_labels (utf8Len (render pre)) doc)[((A.map (·.1)).filter DocItem.isMeta).length]? = some l ∧
+        l.start = utf8Len (render (pre ++ docSpec A ++ ([tk .metaStart ['>', '>']] ++ p.a.takeWhile c07n_isBC))) ∧
+        l.stop = utf8Len (render (pre ++ docSpec A ++ ([tk .metaStart ['>', '>']] ++ p.a ++ k ++ p.b ++
+          [tk .colon [':']] ++ p.c ++ v ++ c07n_dropTrailBC p.d))) ∧
+        utf8Len (render (pre ++ docSpec A)) + 2 ≤ l.start ∧ l.start ≤ l.stop ∧
+        l.stop ≤ utf8Len (render (pre ++ docSpec A ++ spellMeta k v p)) ∧
+        utf8Len (render (pre ++ docSpec A ++ spellMeta k v p)) ≤ utf8Len (render (pre ++ docSpec doc)) ∧
+        (p.a.head?.all (fun t => !c07n_isBC t) = true → p.d.getLast?.all (fun t => !c07n_isBC t) = true →
+          l = ⟨utf8Len (render (pre ++ docSpec A)) + 2, utf8Len (render (pre ++ docSpec A ++ spellMeta k v p))⟩) := by
+  have hl := c07n_labels_length doc (utf8Len (render pre))
+  refine ⟨?_, hl, ?_⟩
+  · rw [c07n_parseRecipe_doc_refs (α := α) env pre doc hpre hok hlock hplain hext hrefs hseps hw hfm, deprecation, ← hl]
+    cases c07n_labels (utf8Len (render pre)) doc <;> simp
+  · intro A B k v p sep hdoc
+    subst hdoc
+    exact c07n_labels_line pre A B k v p sep
+
+/-! non-vacuity, and the concrete labels.  `C01_exFullDoc` is `>>source: grandma` (17 bytes, offset 0), a step,
+    `== Main course ==`, a step, `>> source: book` (its hypotheses under `C01_stepsEnv`: the `example`s after
+    `C07_sound_recipe_doc`, and of Props/C01.lean, repeated here).  The labels computed from the abstract
+    document are `[2, 17)` = `source: grandma` and `[146, 159)` = ` source: book` (the blank after `>>` is
+    inside the label, the newline after the line is not); `parse` reports exactly the notice with these two. -/
+set_option maxRecDepth 4000 in
+example : c07n_labels 0 C01_exFullDoc = [⟨2, 17⟩, ⟨146, 159⟩] ∧
+    utf8Len (render (docSpec C01_exFullDoc)) = 160 := ⟨by decide, by decide⟩
+example : (parseRecipe (α := Rat) C01_stepsEnv (render (docSpec C01_exFullDoc))).diags =
+    #[⟨.warning, .analysis, "meta-deprecated", [⟨2, 17⟩, ⟨146, 159⟩]⟩] := by
+  have hplain : ∀ d ∈ C01_exFullDoc, d.1.plain C01_stepsEnv := by
+    have hk : StdKey.ofStr (String.ofList (leafText [tk .word "source".toList])) = some .source := by decide
+    intro d hd
+    simp only [C01_exFullDoc, List.mem_cons, List.not_mem_nil, or_false] at hd
+    rcases hd with rfl | rfl | rfl | rfl | rfl <;>
+      first
+      | trivial
+      | (refine ⟨by decide, fun sk h => ?_⟩
+         rw [hk] at h
+         cases h
+         exact ⟨by simp [C01_stepsEnv], by decide⟩)
+  have hext : ∀ d ∈ C01_exFullDoc, d.1.extOK Rat C01_stepsEnv := by
+    intro d hd
+    simp only [C01_exFullDoc, List.mem_cons, List.not_mem_nil, or_false] at hd
+    rcases hd with rfl | rfl | rfl | rfl | rfl <;> try trivial
+    all_goals
+      intro sg _
+      cases sg <;> first | trivial | (intro h; exact absurd h (by decide))
+  have h := (C07_meta_deprecated_spans (α := Rat) C01_stepsEnv [] C01_exFullDoc (by decide) (by decide) (by decide)
+    hplain hext (by decide) (by decide) (by decide)).1
+  simp only [List.nil_append] at h
+  rw [h]
+  decide
+/-! (`C07_meta_deprecated_spans_refs` has the hypotheses of `C07_sound_recipe_doc_refs`, shown satisfiable by
+    `C01_exRefsDoc` in the examples after that theorem; that document has no `>>` line, so its label list is
+    empty.) -/
+example : c07n_labels 0 C01_exRefsDoc = [] := by decide
+/-- the label formula on a line with block comments, as checked against the real parser:
+    `>>[- c -] k [- m -] : [- n -] v [- d -]` at offset 0 gets the label `[9, 32)` = ` k [- m -] : [- n -] v ` -/
+example : c07n_metaSpan 0 [tk .word ['k']] [tk .word ['v']]
+    { a := [tk .blockComment "[- c -]".toList, tk .ws [' ']], b := [tk .ws [' '], tk .blockComment "[- m -]".toList, tk .ws [' ']],
+      c := [tk .ws [' '], tk .blockComment "[- n -]".toList, tk .ws [' ']], d := [tk .ws [' '], tk .blockComment "[- d -]".toList] } =
+    ⟨9, 32⟩ := by decide
+
+/-! ### Arbitrary placement, a sixth construct: modifiers on a cookware item (wave 5) -/
+
+/-- **Recipe modifier / duplicate modifiers on a cookware item, anywhere in a step** (a further instance of the
+    schema `C07_planted_step`; COMPONENT_MODIFIERS).  `#@x{}`, `#&&x{}`: plain modifier tokens `ms`, a non-blank
+    name without alias separator, blank braces, standing after `A` and before `rest` (not a `(`) in a block `T`.
+    From every parser state at that position one iteration of the step loop consumes exactly the construct and
+    pushes EXACTLY: one `duplicate-modifier` (labelled with the span of the modifier tokens) per token that
+    repeats an earlier one; then `cookware-recipe-modifier` labelled with the first `@` among the modifiers
+    iff there is one (`recipeModEvs`, `C07_cookware_recipe_modifier`); then the cookware item, whose span is
+    the byte range of the construct. -/
+theorem C07_planted_cookware_modifiers (T A rest : List Tok) (cs : CharSpec) (e : Ext) (tm : Tok)
+    (ms nameT : List Tok) (tob : Tok) (Q : List Tok) (tcb : Tok)
+    (hT : T = A ++ (c07p_comp tm ms nameT tob Q tcb ++ rest)) (hw : WF T)
+    (sh : PlShape e .hash tm ms nameT tob Q tcb rest) (hs : SimpleMods ms)
+    (hQ : ∀ t ∈ Q, isPadK t = true)
+    (ha : e.has Gen.EXT_COMPONENT_ALIAS = false ∨ ∀ t ∈ nameT, t.kind ≠ .or)
+    (hname : (buildText (offAt T (A.length + 1 + ms.length)) nameT).isTextEmpty cs = false) :
+    PlPieceAt (α := α) T cs e A ⟨c07p_comp tm ms nameT tob Q tcb, fun evs =>
+      evs = List.replicate (foldMods Modifiers.empty ms).2
+          (.error ⟨.error, .parse, "duplicate-modifier", [tokensSpan ms]⟩) ++ recipeModEvs ms ++
+        [.cookware ⟨⟨simpleFlags ms (offAt T (A.length + 1)),
+          buildText (offAt T (A.length + 1 + ms.length)) nameT, none, none, none⟩,
+        ⟨offAt T A.length, offAt T (A.length + (c07p_comp tm ms nameT tob Q tcb).length)⟩⟩]⟩ :=
+  c07p_cookware_modifiers_piece T A rest cs e tm ms nameT tob Q tcb hT hw sh hs hQ ha hname
+
+/-! non-vacuity: `Use #@x{}.` under COMPONENT_MODIFIERS — the shape, the side conditions, the expected error -/
+example : PlShape ⟨Gen.EXT_COMPONENT_MODIFIERS⟩ .hash ⟨.hash, ['#'], 4⟩ [⟨.at, ['@'], 5⟩]
+    [⟨.word, ['x'], 6⟩] ⟨.openBrace, ['{'], 7⟩ [] ⟨.closeBrace, ['}'], 8⟩ [⟨.dot, ['.'], 9⟩] :=
+  ⟨rfl, Or.inr ⟨rfl, by decide, by intro x h; cases h; decide⟩, by decide, rfl, by decide, rfl,
+    by intro t h; cases h; decide⟩
+example : SimpleMods [⟨.at, ['@'], 5⟩] ∧ (foldMods Modifiers.empty [⟨.at, ['@'], 5⟩]).2 = 0 ∧
+    recipeModEvs (α := Rat) [⟨.at, ['@'], 5⟩] =
+      [.error ⟨.error, .parse, "cookware-recipe-modifier", [⟨5, 6⟩]⟩] ∧
+    (buildText 6 [⟨.word, ['x'], 6⟩]).isTextEmpty toyCharSpec = false :=
+  ⟨by unfold SimpleMods; decide, rfl, rfl, by decide⟩
+
+/-! ### Event-level composition and placement (wave 5, item 3) -/
+
+/-- **An ingredient event, exactly.**  From EVERY collector state the whole ingredient event (`ingredient` of
+    the analysis pass: quantity conversion, then either the intermediate-reference branch or `resolve_reference`
+    followed by the reference checks, then the push) appends EXACTLY the list `c07v_ingredientEventDiags` — a
+    function of the event, the extension set / converter, and of the ingredient table, its location table, the
+    two modes and the current section of that state (not of its diagnostics): the scaling-lock warning; then,
+    with intermediate data `&(…)`, `inter-ref-conflicting-modifiers` and the intermediate-reference error
+    (`interRefDiags`); otherwise `refDiags` of `resolve_reference` and — when it resolved to a table entry — the
+    reference checks `c07r_ingrRefDiags` against that entry.  Consequently (for every predicate `p` on
+    diagnostics) the event raises a `p`-diagnostic iff the part that runs raises one, and in particular
+    * `reference-not-found` is raised IFF the ingredient has no intermediate data, is not `+`, is `&` or the
+      define mode is `steps`, and no earlier non-reference ingredient has the same folded name; it is then the
+      error (analysis) labelled with the component's span;
+    * `unnecessary-scaling-lock` is raised IFF the quantity carries `=` on a text value. -/
+theorem C07_ingredient_event_exact (env : Env) (input : Str) (li : Loc (PIngredient α)) (s : Col α) :
+    (ingredientA env input li s).2.diags.toList = s.diags.toList ++
+      c07v_ingredientEventDiags env input li s.ingredients s.locIngr s.defineMode s.duplicateMode
+        s.cur.content s.sections.length ∧
+    (∀ p : Diag → Prop,
+      (∃ d ∈ c07v_ingredientEventDiags env input li s.ingredients s.locIngr s.defineMode s.duplicateMode
+          s.cur.content s.sections.length, p d) ↔
+      ((∃ d ∈ c07v_ingrLockDiags li.val.quantity, p d) ∨
+       (∃ dd, li.val.inter = some dd ∧
+          ((∃ d ∈ c07v_interCheckDiags li.val li.val.modifiers.val, p d) ∨
+           (∃ d ∈ interRefDiags s.cur.content s.sections.length dd, p d))) ∨
+       (li.val.inter = none ∧
+          ((∃ d ∈ refDiags env c07v_ingrInherit (s.ingredients.toList.map (fun x => (x.name, x.modifiers)))
+              (c07v_igr0 env li s.defineMode).name li.val.modifiers.val li.span li.val.modifiers.span
+              s.defineMode s.duplicateMode, p d) ∨
+           (∃ d ∈ c07v_ingrRefCheckDiags env input li (c07v_igr0 env li s.defineMode) s.ingredients s.locIngr
+              (c07v_refResult env c07v_ingrInherit (s.ingredients.toList.map (fun x => (x.name, x.modifiers)))
+                (c07v_igr0 env li s.defineMode).name li.val.modifiers.val s.defineMode s.duplicateMode), p d))))) ∧
+    ((∃ d ∈ c07v_ingredientEventDiags env input li s.ingredients s.locIngr s.defineMode s.duplicateMode
+        s.cur.content s.sections.length, d.kind = "reference-not-found") ↔
+      (li.val.inter = none ∧ li.val.modifiers.val.contains Modifiers.NEW = false ∧
+       sameNameIdx env (s.ingredients.toList.map (fun x => (x.name, x.modifiers)))
+         (c07v_igr0 env li s.defineMode).name = none ∧
+       (li.val.modifiers.val.contains Modifiers.REF = true ∨ s.defineMode = .steps))) ∧
+    (∀ d ∈ c07v_ingredientEventDiags env input li s.ingredients s.locIngr s.defineMode s.duplicateMode
+        s.cur.content s.sections.length, d.kind = "reference-not-found" →
+      d = ⟨.error, .analysis, "reference-not-found", [li.span]⟩) ∧
+    ((∃ d ∈ c07v_ingredientEventDiags env input li s.ingredients s.locIngr s.defineMode s.duplicateMode
+        s.cur.content s.sections.length, d.kind = "unnecessary-scaling-lock") ↔
+      ∃ q, li.val.quantity = some q ∧ q.val.value.lock.isSome = true ∧ q.val.value.value.val.isText = true) := by
+  obtain ⟨k1, k2⟩ := c07v_ingredientEvent_notfound_iff env input li s.ingredients s.locIngr s.defineMode
+    s.duplicateMode s.cur.content s.sections.length
+  exact ⟨c07v_ingredientA_exact env input li s,
+    fun p => c07v_ingredientEvent_split env input li _ _ _ _ _ _ p, k1, k2,
+    (c07v_event_lock_iff env input).1 li _ _ _ _ _ _⟩
+
+/-- **A cookware event, exactly.**  From every collector state the whole cookware event appends EXACTLY
+    `c07v_cookwareEventDiags`: the scaling-lock warning (raised IFF the amount carries `=`: a lock never has an
+    effect on cookware), then `refDiags` of `resolve_reference` (container "cookware item", inheriting `-` and `?`),
+    then — when it resolved to a table entry — the reference checks `c07r_cwRefDiags` against that entry; and
+    `reference-not-found` is raised IFF the item is not `+`, is `&` or the define mode is `steps`, and no earlier
+    non-reference cookware item has the same folded name (then: error, analysis, labelled with the item's span). -/
+theorem C07_cookware_event_exact (env : Env) (input : Str) (lc : Loc (PCookware α)) (s : Col α) :
+    (cookwareA env input lc s).2.diags.toList = s.diags.toList ++
+      c07v_cookwareEventDiags env input lc s.cookware s.locCw s.defineMode s.duplicateMode ∧
+    (∀ p : Diag → Prop,
+      (∃ d ∈ c07v_cookwareEventDiags env input lc s.cookware s.locCw s.defineMode s.duplicateMode, p d) ↔
+      ((∃ d ∈ c07v_cwLockDiags lc.val.quantity, p d) ∨
+       (∃ d ∈ refDiags env c07v_cwInherit (s.cookware.toList.map (fun x => (x.name, x.modifiers)))
+          (lc.val.name.trimmed env.cs) lc.val.modifiers.val lc.span lc.val.modifiers.span
+          s.defineMode s.duplicateMode, p d) ∨
+       (∃ d ∈ c07v_cwRefCheckDiags input lc (c07v_cw0 env lc s.defineMode) s.cookware s.locCw
+          (c07v_refResult env c07v_cwInherit (s.cookware.toList.map (fun x => (x.name, x.modifiers)))
+            (lc.val.name.trimmed env.cs) lc.val.modifiers.val s.defineMode s.duplicateMode), p d))) ∧
+    ((∃ d ∈ c07v_cookwareEventDiags env input lc s.cookware s.locCw s.defineMode s.duplicateMode,
+        d.kind = "reference-not-found") ↔
+      (lc.val.modifiers.val.contains Modifiers.NEW = false ∧
+       sameNameIdx env (s.cookware.toList.map (fun x => (x.name, x.modifiers))) (lc.val.name.trimmed env.cs) = none ∧
+       (lc.val.modifiers.val.contains Modifiers.REF = true ∨ s.defineMode = .steps))) ∧
+    (∀ d ∈ c07v_cookwareEventDiags env input lc s.cookware s.locCw s.defineMode s.duplicateMode,
+      d.kind = "reference-not-found" → d = ⟨.error, .analysis, "reference-not-found", [lc.span]⟩) ∧
+    ((∃ d ∈ c07v_cookwareEventDiags env input lc s.cookware s.locCw s.defineMode s.duplicateMode,
+        d.kind = "unnecessary-scaling-lock") ↔ ∃ q, lc.val.quantity = some q ∧ q.val.lock.isSome = true) := by
+  obtain ⟨k1, k2⟩ := c07v_cookwareEvent_notfound_iff env input lc s.cookware s.locCw s.defineMode s.duplicateMode
+  exact ⟨c07v_cookwareA_exact env input lc s, fun p => c07v_cookwareEvent_split env input lc _ _ _ _ p, k1, k2,
+    (c07v_event_lock_iff env input).2 lc _ _ _ _⟩
+
+/-- **Placement of an event's diagnostics in the final report.**  Every event (all eleven kinds) only APPENDS to
+    the diagnostics.  Hence, in an event list `evs1 ++ ev :: evs2` without `Error` events, processed from any
+    state `s`: if `ev`, at the state reached after `evs1` (`c07v_runEvents`: the fold of `processEvent`), appends
+    the list `l`, then the final diagnostics are `s`'s, then what `evs1` added (`pre`), then `l` as a contiguous
+    block in order, then what `evs2` and the end of the loop (`meta-deprecated`) add (`post`).  And inside a step
+    block the list `l` of an ingredient / cookware / timer event is the exact event list
+    (`c07v_ingredientEventDiags`, `c07v_cookwareEventDiags`, `c07i_timerEventDiags`) read at that state. -/
+theorem C07_event_placement (env : Env) (input : Str) (evs1 evs2 : List (Ev α)) (ev : Ev α) (s : Col α) :
+    (∀ (ev' : Ev α) (s' : Col α), ∃ l, (processEvent env input ev' s').2.diags.toList = s'.diags.toList ++ l) ∧
+    (∀ l : List Diag, (∀ d, Ev.error d ∉ evs1 ++ ev :: evs2) →
+      (processEvent env input ev (c07v_runEvents env input evs1 s)).2.diags.toList =
+        (c07v_runEvents env input evs1 s).diags.toList ++ l →
+      ∃ pre post, (c07v_runEvents env input evs1 s).diags.toList = s.diags.toList ++ pre ∧
+        (parseEventsLoop env input (evs1 ++ ev :: evs2) s).diags.toList = s.diags.toList ++ pre ++ l ++ post) ∧
+    (∀ (s' : Col α) (items : List Item), s'.block = some (.step items) →
+      (∀ li, (processEvent env input (.ingredient li) s').2.diags.toList = s'.diags.toList ++
+        c07v_ingredientEventDiags env input li s'.ingredients s'.locIngr s'.defineMode s'.duplicateMode
+          s'.cur.content s'.sections.length) ∧
+      (∀ lc, (processEvent env input (.cookware lc) s').2.diags.toList = s'.diags.toList ++
+        c07v_cookwareEventDiags env input lc s'.cookware s'.locCw s'.defineMode s'.duplicateMode) ∧
+      (∀ lt, (processEvent env input (.timer lt) s').2.diags.toList = s'.diags.toList ++
+        c07i_timerEventDiags env lt)) :=
+  ⟨fun ev' s' => (c07v_DG_processEvent env input ev').out s',
+   fun l hne hl => c07v_event_placement env input evs1 evs2 ev s l hne hl,
+   fun s' items hb => ⟨fun li => c07v_processEvent_ingredient_step env input li s' items hb,
+     fun lc => c07v_processEvent_cookware_step env input lc s' items hb,
+     fun lt => c07v_processEvent_timer_step env input lt s' items hb⟩⟩
+
+/-- **A dangling ingredient reference placed anywhere in a step.**  The event list `evs1 ++ ingredient :: evs2`
+    contains no `Error` event (so the analysis runs to the end) and is processed from any state `s`; after `evs1`
+    the collector is inside a step block; the ingredient has no intermediate data, is not `+`, is `&` (or the define
+    mode reached is `steps`), and no non-reference ingredient collected so far has the same name under case
+    folding.  Then the final diagnostics are: those of `s`, what `evs1` added, then EXACTLY the event's list
+    `c07v_ingredientEventDiags` (read at the state after `evs1`), then what `evs2` and the end of the loop add; and
+    `reference-not-found` (error, analysis stage) labelled with the span of the whole component is in the final
+    report — whatever precedes and follows the component. -/
+theorem C07_reference_not_found_anywhere (env : Env) (input : Str) (evs1 evs2 : List (Ev α))
+    (li : Loc (PIngredient α)) (s : Col α) (items : List Item)
+    (hne : ∀ d, Ev.error d ∉ evs1 ++ Ev.ingredient li :: evs2)
+    (hb : (c07v_runEvents env input evs1 s).block = some (.step items))
+    (hi : li.val.inter = none) (hnew : li.val.modifiers.val.contains Modifiers.NEW = false)
+    (href : li.val.modifiers.val.contains Modifiers.REF = true ∨
+      (c07v_runEvents env input evs1 s).defineMode = .steps)
+    (hnone : ∀ (k : Nat) (ig : Ingredient (ScalableValue α)),
+      (c07v_runEvents env input evs1 s).ingredients[k]? = some ig →
+      ig.modifiers.contains Modifiers.REF = false → nameEq env (c07v_ingrName env li) ig.name = false) :
+    (∃ pre post, (parseEventsLoop env input (evs1 ++ Ev.ingredient li :: evs2) s).diags.toList =
+      s.diags.toList ++ pre ++
+        c07v_ingredientEventDiags env input li (c07v_runEvents env input evs1 s).ingredients
+          (c07v_runEvents env input evs1 s).locIngr (c07v_runEvents env input evs1 s).defineMode
+          (c07v_runEvents env input evs1 s).duplicateMode (c07v_runEvents env input evs1 s).cur.content
+          (c07v_runEvents env input evs1 s).sections.length ++ post) ∧
+    (⟨.error, .analysis, "reference-not-found", [li.span]⟩ : Diag) ∈
+      (parseEventsLoop env input (evs1 ++ Ev.ingredient li :: evs2) s).diags.toList :=
+  c07v_reference_not_found_anywhere env input evs1 evs2 li s items hne hb hi hnew href hnone
+
+/-- **Being inside a step** (discharges the block hypothesis of `C07_reference_not_found_anywhere` from the shape of
+    the event list): after any events `pre` that leave the define mode other than `text`, a `Start(Step)` event
+    and then any text / ingredient / cookware / timer events (`c07v_isStepInner`), the collector is inside a step
+    block — each such event keeps it there. -/
+theorem C07_inside_step (env : Env) (input : Str) (pre inner : List (Ev α)) (s : Col α)
+    (hdm : (c07v_runEvents env input pre s).defineMode ≠ .text)
+    (hall : ∀ ev ∈ inner, c07v_isStepInner ev = true) :
+    ∃ items, (c07v_runEvents env input (pre ++ Ev.start .step :: inner) s).block = some (.step items) :=
+  c07v_inside_step env input pre inner s hdm hall
+
+/-! non-vacuity.  `C07_evState`: a collector inside a step whose table holds the definition `@salt{1}` (made in a
+    step).  `C07_evRefSalt` = `@&salt{=x}(n)`: lock on a text value, a note, text against the numeric definition —
+    the event list is lock warning, `note-in-reference`, `text-value-in-ref`.  `C07_evRefPepper` = `@&pepper{}`: no
+    definition — exactly `reference-not-found` on the component's span.  `C07_evRefPan` = `#&pan{=2}`: lock warning
+    then `reference-not-found`.  And `Mix @salt{} … @&pepper{} … .` as an event list: the hypotheses of the placement
+    theorems hold. -/
+def C07_evSaltLoc : Loc (PIngredient Rat) :=
+  ⟨⟨⟨⟨0⟩, ⟨1, 1⟩⟩, none, C01_txt "salt" 1, none,
+    some ⟨⟨⟨⟨.number (.regular 1), ⟨6, 7⟩⟩, none⟩, none⟩, ⟨5, 8⟩⟩, none⟩, ⟨0, 8⟩⟩
+def C07_evState : Col Rat :=
+  { ingredients := #[⟨"salt".toList, none, some ⟨.linear (.number (.regular 1)), none⟩, none, none,
+      ⟨.definition [] true, none⟩, ⟨0⟩⟩],
+    locIngr := #[C07_evSaltLoc], block := some (.step [.ingredient 0]) }
+def C07_evRefSalt : Loc (PIngredient Rat) :=
+  ⟨⟨⟨⟨Modifiers.REF⟩, ⟨11, 12⟩⟩, none, C01_txt "salt" 12, none,
+    some ⟨⟨⟨⟨.text ['x'], ⟨18, 19⟩⟩, some ⟨17, 18⟩⟩, none⟩, ⟨16, 20⟩⟩, some (C01_txt "n" 21)⟩, ⟨10, 23⟩⟩
+def C07_evRefPepper : Loc (PIngredient Rat) :=
+  ⟨⟨⟨⟨Modifiers.REF⟩, ⟨31, 32⟩⟩, none, C01_txt "pepper" 32, none, none, none⟩, ⟨30, 40⟩⟩
+def C07_evRefPan : Loc (PCookware Rat) :=
+  ⟨⟨⟨⟨Modifiers.REF⟩, ⟨51, 52⟩⟩, C01_txt "pan" 52, none,
+    some ⟨⟨⟨.number (.regular 2), ⟨57, 58⟩⟩, some ⟨56, 57⟩⟩, ⟨56, 58⟩⟩, none⟩, ⟨50, 59⟩⟩
+
+example : c07v_ingredientEventDiags C01_toyEnv [] C07_evRefSalt C07_evState.ingredients C07_evState.locIngr
+      C07_evState.defineMode C07_evState.duplicateMode C07_evState.cur.content C07_evState.sections.length =
+    [⟨.warning, .analysis, "unnecessary-scaling-lock", [⟨18, 19⟩]⟩,
+     ⟨.error, .analysis, "note-in-reference", [⟨21, 22⟩, ⟨8, 8⟩]⟩,
+     ⟨.warning, .analysis, "text-value-in-ref", [⟨16, 20⟩, ⟨5, 8⟩]⟩] := by decide
+example : c07v_ingredientEventDiags C01_toyEnv [] C07_evRefPepper C07_evState.ingredients C07_evState.locIngr
+      C07_evState.defineMode C07_evState.duplicateMode C07_evState.cur.content C07_evState.sections.length =
+    [⟨.error, .analysis, "reference-not-found", [⟨30, 40⟩]⟩] := by decide
+example : c07v_cookwareEventDiags C01_toyEnv [] C07_evRefPan C07_evState.cookware C07_evState.locCw
+      C07_evState.defineMode C07_evState.duplicateMode =
+    [⟨.warning, .analysis, "unnecessary-scaling-lock", [⟨57, 58⟩]⟩,
+     ⟨.error, .analysis, "reference-not-found", [⟨50, 59⟩]⟩] := by decide
+
+/-- `Mix @salt{1}` … -/
+def C07_evBefore : List (Ev Rat) := [.start .step, .text (C01_txt "Mix " 0), .ingredient C07_evSaltLoc]
+/-- … ` well.` and the end of the step -/
+def C07_evAfter : List (Ev Rat) := [.text (C01_txt " well." 40), .stop .step]
+
+example : (∀ d, Ev.error d ∉ C07_evBefore ++ Ev.ingredient C07_evRefPepper :: C07_evAfter) ∧
+    (∃ items, (c07v_runEvents C01_toyEnv [] C07_evBefore {}).block = some (.step items)) ∧
+    C07_evRefPepper.val.inter = none ∧ C07_evRefPepper.val.modifiers.val.contains Modifiers.NEW = false ∧
+    C07_evRefPepper.val.modifiers.val.contains Modifiers.REF = true ∧
+    (∀ (k : Nat) (ig : Ingredient (ScalableValue Rat)),
+      (c07v_runEvents C01_toyEnv [] C07_evBefore {}).ingredients[k]? = some ig →
+      ig.modifiers.contains Modifiers.REF = false →
+      nameEq C01_toyEnv (c07v_ingrName C01_toyEnv C07_evRefPepper) ig.name = false) ∧
+    (processEvent C01_toyEnv [] (.ingredient C07_evRefPepper) (c07v_runEvents C01_toyEnv [] C07_evBefore {})).2.diags.toList =
+      (c07v_runEvents C01_toyEnv [] C07_evBefore {}).diags.toList ++
+        [⟨.error, .analysis, "reference-not-found", [⟨30, 40⟩]⟩] := by
+  have hI : (c07v_runEvents C01_toyEnv [] C07_evBefore {}).ingredients.toList.map (fun x => x.name) = ["salt".toList] := by
+    decide
+  refine ⟨?_, ⟨_, rfl⟩, rfl, by decide, by decide, ?_, by decide⟩
+  · intro d hd
+    simp [C07_evBefore, C07_evAfter] at hd
+  · intro k ig hk _
+    have hm : ig.name ∈ (c07v_runEvents C01_toyEnv [] C07_evBefore {}).ingredients.toList.map (fun x => x.name) :=
+      List.mem_map.2 ⟨ig, Array.mem_toList_iff.2 (Array.mem_of_getElem? hk), rfl⟩
+    rw [hI] at hm
+    simp only [List.mem_singleton] at hm
+    rw [hm]
+    decide
+
+/-! and the model run on that event list: the final report is exactly the one error, on the span of `@&pepper{}` -/
+example : (parseEvents C01_toyEnv [] (C07_evBefore ++ Ev.ingredient C07_evRefPepper :: C07_evAfter)).diags.toList =
+    [⟨.error, .analysis, "reference-not-found", [⟨30, 40⟩]⟩] := by decide
+example : (c07v_runEvents C01_toyEnv [] ([] : List (Ev Rat)) {}).defineMode ≠ .text ∧
+    (∀ ev ∈ [Ev.text (C01_txt "Mix " 0), Ev.ingredient C07_evSaltLoc], c07v_isStepInner ev = true) ∧
+    C07_evBefore = [] ++ Ev.start .step :: [Ev.text (C01_txt "Mix " 0), Ev.ingredient C07_evSaltLoc] := by
+  refine ⟨by decide, ?_, rfl⟩
+  intro ev hev
+  simp only [List.mem_cons, List.not_mem_nil, or_false] at hev
+  rcases hev with rfl | rfl <;> rfl
 
 end Cook
